@@ -301,7 +301,7 @@ def run(ctx):
 
 
 MANIFEST_ENTRY = {
-    "technique": "static analysis: sibling-skeleton comparison of the view and string code generators (iteration, selection functions, fallback, defaulted alternatives, formatter families), selector-table extraction of the t! family, identity check of wrappers and scope helpers (syn)",
+    "technique": "static analysis: symbolic evaluation of both plural generators and comparison of their selection skeletons (rules/genplurals.py), sibling comparison of the range generators and formatter families (syn, expanded templates), selector-table extraction of the t! family, MIR return-value summaries (py/mirsum.py) showing wrappers and scope helpers to be identities on locale and key",
     "level_text": "Structural: the two back-ends are compared construct by construct on every run (an asymmetry is what makes flavours diverge), the macro selector tables are extracted, and wrappers / scoping are shown to be identities on locale and key. Rendered strings are not compared.",
     "level_note": "Trusted: leptos rendering equals Display for the value types. Not decided: HTML vs Display text of a concrete value.",
 }
